@@ -223,8 +223,39 @@ pub fn check_one(d: Dialect, tpl: &str, nvals: usize, watch: Option<&Counter>) -
         return Err(("values-differ".into(), format!("build values = {:?}, expected {:?}", got_vals, want_v)));
     }
     // inject_parameters(build) == to_string, for statements whose SQL holds no user-written literal mark
-    let mark = if d == Dialect::Postgres { '$' } else { '?' };
-    let literal_mark = pieces.iter().any(|p| matches!(p, Piece::Text(t) if t.contains(mark)));
+    // a literal mark that the engine (and inject_parameters) would read as a placeholder: a bare `?`,
+    // or `$<digit>` on Postgres, outside quoted text of the expanded SQL
+    let expanded: Vec<char> = want_build.chars().collect();
+    let spans = crate::props::c16::ref_spans(&expanded);
+    let outside = |i: usize| !spans.iter().any(|(a, b)| i >= *a && i < *b);
+    let mut text_positions: Vec<usize> = vec![];
+    {
+        // positions of characters that came from Text pieces
+        let mut pos = "SELECT ".chars().count();
+        let mut nparam = 0usize;
+        for p in &pieces {
+            match p {
+                Piece::Text(t) => {
+                    for _ in t.chars() {
+                        text_positions.push(pos);
+                        pos += 1;
+                    }
+                }
+                Piece::Val(_) => {
+                    nparam += 1;
+                    pos += if d == Dialect::Postgres { 1 + nparam.to_string().len() } else { 1 };
+                }
+            }
+        }
+    }
+    let literal_mark = text_positions.iter().any(|&i| {
+        outside(i)
+            && if d == Dialect::Postgres {
+                expanded[i] == '$' && expanded.get(i + 1).map_or(false, |c| c.is_ascii_digit())
+            } else {
+                expanded[i] == '?'
+            }
+    });
     if !literal_mark {
         match inject(d, &build, vals) {
             Ok(x) if x == inline => {}
